@@ -2,7 +2,8 @@
 """Regenerates the table of independently seeded changes in DESIGN.md section 8.2 from seeded/*/meta.json."""
 import glob, json, os, re
 V = os.path.join(os.path.dirname(os.path.abspath(__file__)), "..")
-rows = ["| id | property | change (one line) | needs to manifest | confirmed (base commit; demo clean / patched; suite) | reported by |", "|----|----|----|----|----|----|"]
+rows = ["| id | property | change (one line) | needs to manifest | confirmed (base commit; demo clean / patched; suite) | first run | reported by (now) |", "|----|----|----|----|----|----|----|"]
+FIRST = json.load(open(os.path.join(V, "seeded", "first_run.json")))
 def one(s, n):
     s = " ".join((s or "").split())
     return s if len(s) <= n else s[:n - 1].rsplit(" ", 1)[0] + " …"
@@ -21,9 +22,10 @@ for f in sorted(glob.glob(os.path.join(V, "seeded", "*", "meta.json"))):
         shown = ", ".join("`%s`" % k for k in keys)
     if not keys:
         shown = "**none** — " + one(m.get("note", ""), 400)
-    rows.append("| %s | %s | %s | %s | %s; %s / %s; %s | %s |" % (
-        m["id"], m["property"], one(m["summary"], 260), one(m["needs_to_manifest"], 220),
-        c["repo_commit"], r.get("demo_exit_unchanged"), r.get("demo_exit_with_patch"), r.get("suite_passed_failed"), shown))
+    fr = FIRST.get(m["id"], ["?", ""])
+    rows.append("| %s | %s | %s | %s | %s; %s / %s; %s | **%s** — %s | %s |" % (
+        m["id"], m["property"], one(m["summary"], 200), one(m["needs_to_manifest"], 160),
+        c["repo_commit"], r.get("demo_exit_unchanged"), r.get("demo_exit_with_patch"), r.get("suite_passed_failed"), fr[0], fr[1], shown))
 text = "\n".join(rows)
 p = os.path.join(V, "DESIGN.md")
 s = open(p).read()
@@ -33,4 +35,9 @@ a = s.index("<!-- SEEDED_TABLE_BEGIN -->") + len("<!-- SEEDED_TABLE_BEGIN -->")
 b = s.index("<!-- SEEDED_TABLE_END -->")
 s = s[:a] + "\n" + text + "\n" + s[b:]
 open(p, "w").write(s)
-print(len(rows) - 2, "seeded changes")
+from collections import Counter
+cnt = Counter()
+for k, v in FIRST.items():
+    if not k.startswith("_"):
+        cnt[(k[-1], v[0])] += 1
+print(len(rows) - 2, "seeded changes;", dict(cnt))
